@@ -203,7 +203,6 @@ package doccomposer
 // returns no document at all (atomic) ----
 // JSON round trips produce a new document (assumed: encoding/json allocates the maps it decodes into)
 //@ func deepCopy
-//@   trusted
 //@   results r, err
 //@   ensures err == nil ==> r != nil && fresh(r)
 //@ func applyJSON
